@@ -299,12 +299,12 @@ abbrev Verdict := Option (String × String)
 /-- Generic wrapper: run the shared front end, then the property-specific part (only while the
 history is inside the contract). -/
 def withBase {σ : Type} (f : Base → Base → Seen → List PView → σ → σ × Verdict)
-    (reset : σ) (st : Base × σ) (op obs : String) : (Base × σ) × Verdict :=
+    (reset : σ → σ) (st : Base × σ) (op obs : String) : (Base × σ) × Verdict :=
   let w := splitWords op
   let (b, s) := st
   let (b', seen, views) := baseStep b w obs
   match seen with
-  | .start => ((b', reset), none)
+  | .start => ((b', reset s), none)
   | .skip => ((b', s), none)
   | _ =>
     if !b.inContract || !b'.inContract then ((b', s), none) else
@@ -392,7 +392,7 @@ def oracle3 (_b b' : Base) (seen : Seen) (views : List PView) (o : O3) : O3 × V
     | _, _ => (resetDead o views, none)
   | _ => (resetDead o views, none)
 
-def oracleC03 := withBase oracle3 ({} : O3)
+def oracleC03 := withBase oracle3 (fun _ => ({} : O3))
 
 /-! ### C04 — process images -/
 
@@ -465,7 +465,7 @@ def oracle4 (b b' : Base) (seen : Seen) (views : List PView) (o0 : O4) : O4 × V
   | .reply _ _ none => ({ o with pend := none }, none)
   | _ => (o, none)
 
-def oracleC04 := withBase oracle4 ({} : O4)
+def oracleC04 := withBase oracle4 (fun _ => ({} : O4))
 
 /-! ### C08 — frame count bit and retries -/
 
@@ -489,6 +489,9 @@ structure O8 where
   a : List A8 := []
   /-- slot declared offline by the last `dp.tx` (live → not live): its Offline event is due -/
   due : Option Nat := none
+  /-- how often the known finding was reported in this run (it is reported 20 times at most, so that
+  it cannot crowd other failures out of the report) -/
+  kSeen : Nat := 0
   deriving Inhabited
 
 def a8Of (o : O8) (slot : Nat) : A8 := o.a.getD slot {}
@@ -547,7 +550,8 @@ def oracle8 (b b' : Base) (seen : Seen) (views : List PView) (o : O8) : O8 × Ve
               -- known finding: `request_diagnostics()` between an unanswered Data_Exchange request and
               -- its retransmission turns the retransmission into a diagnostics request with the same bit
               if k0 = .dx ∧ r.kind = .diag ∧ x.diagReq ∧ !x.anyReply then
-                (o2, some ("K_C08_diagreq_retry", s!"request_diagnostics() while the Data_Exchange request to #{r.da} is unanswered: the retransmission slot is used for a diagnostics request with the same frame count bit"))
+                if o2.kSeen ≥ 20 then (o2, none) else
+                ({ o2 with kSeen := o2.kSeen + 1 }, some ("K_C08_diagreq_retry", s!"request_diagnostics() while the Data_Exchange request to #{r.da} is unanswered: the retransmission slot is used for a diagnostics request with the same frame count bit"))
               else
               fail o2 s!"same_fcb_only_retransmit: request to #{r.da} repeats the frame count bit of an unanswered request of another service"
             else (o2, none)
@@ -575,7 +579,7 @@ def oracle8 (b b' : Base) (seen : Seen) (views : List PView) (o : O8) : O8 × Ve
   | .diagreq slot => (setA8 o slot { a8Of o slot with diagReq := true }, none)
   | _ => (o, none)
 
-def oracleC08 := withBase oracle8 ({} : O8)
+def oracleC08 := withBase oracle8 (fun old => ({ kSeen := old.kSeen } : O8))
 
 /-! ### C14 — cycles and events -/
 
@@ -701,6 +705,6 @@ def oracle14 (b b' : Base) (seen : Seen) (views : List PView) (o : O14) : O14 ×
   | .broken what => fail o s!"turn_ends: {what}"
   | _ => ({ o with justTaken := false }, none)
 
-def oracleC14 := withBase oracle14 ({} : O14)
+def oracleC14 := withBase oracle14 (fun _ => ({} : O14))
 
 end PV.Driver
